@@ -384,7 +384,67 @@ def locked_storages(F, R):
          rmdir[0].where if rmdir else '%s:%s' % (rn.file, rn.line), rn)
 
 
+
+TOKENS = [(r'__internal_acquire_producer$', r'__internal_release_producer$', 'per-entry producer token (has_producer)')]
+
+
+def dead_port_tokens_released(F, R):
+    """Dead-port cleanup dispatch (`cleanup_port_resources` in __internal_remove_node_from_service): a port kind whose API takes a
+    cross-process EXCLUSIVE token that only its own Drop gives back (the blackboard writer: one producer token per entry, a flag in the
+    shared entry) gets that token released by the arm of its kind - otherwise the token of a crashed holder is lost for ever and no
+    survivor can ever obtain it again (HandleAlreadyExists for every later writer)."""
+    fs = F.find_fns(r'^iceoryx2::service::internal::ServiceInternal::__internal_remove_node_from_service$')
+    if len(fs) != 1:
+        R.missing('__internal_remove_node_from_service')
+        return
+    n = 0
+    for c in F.closures_of(fs[0]):
+        for b in range(len(c.blocks)):
+            si = c.switch_info(b)
+            if not si or not si.get('labels'):
+                continue
+            labs = F.enum_labels(si['labels'][1])
+            if 'Writer' not in labs.values() or 'Publisher' not in labs.values():
+                continue
+            for lab, tgt in lib.arm_blocks(c, b, lambda l: True, F):
+                mod = 'iceoryx2::port::%s::' % lab.lower()
+                for acq, rel, what in TOKENS:
+                    takes = [g for g in F.fn_list if g.id.startswith(mod) or ('<' + mod) in g.id[:len(mod) + 2]]
+                    takes = [g for g in takes if g.calls(acq)]
+                    if not takes:
+                        continue
+                    n += 1
+                    # callees reachable from the blocks of this arm (bounded call-graph search)
+                    arm_blocks_ = [bb for bb in range(len(c.blocks)) if c.edge_dominates(b, tgt, bb)]
+                    seen, todo, found = set(), [], False
+                    for bb in arm_blocks_:
+                        t = c.blocks[bb]['t']
+                        if t[0] == 'call' and isinstance(t[1], dict) and t[1].get('d'):
+                            todo.append((t[1]['d'], 0))
+                    while todo and not found:
+                        cid, d = todo.pop()
+                        if cid in seen or d > 4:
+                            continue
+                        seen.add(cid)
+                        if re.search(rel, cid):
+                            found = True
+                            break
+                        g = F.fn_opt(cid)
+                        if g is not None and g.crate.startswith('iceoryx2'):
+                            for s_ in g.sites:
+                                if s_.is_call and s_.callee:
+                                    todo.append((s_.callee, d + 1))
+                    if not found:
+                        # alternative recovery: the constructor of the kind gives stale tokens back before it hands out the port (valid when
+                        # only one port of the kind can exist: acquiring the slot proves that no live holder is left)
+                        for g in F.fn_list:
+                            if g.kind != 'closure' and g.name == 'new' and (g.id.startswith(mod) or ('<' + mod) in g.id[:len(mod) + 2]) and g.calls(rel):
+                                found = True
+                    R.ob('COVERAGE', 'COVERAGE::%s::dead-%s-exclusive-tokens-released' % (fnkey(fs[0]), lab), found, 'a live %s takes the %s in %s; the %s arm of the dead-port cleanup %s' % (lab, what, takes[0].id.rsplit('::', 2)[-2] + '::' + takes[0].name, lab, 'reaches its release' if found else 'does not release it: a writer that dies holding an entry handle blocks that key for every later writer'), c.term_site(b).where, c)
+    R.floors['port kinds with exclusive tokens in the dead-port dispatch'] = {'expected': 0, 'seen': n}
+
 def check(F, R, tier):
+    dead_port_tokens_released(F, R)
     from . import C06
     C06.open_retry_is_bounded(F, R)   # a survivor never hangs in open() behind a creator that died mid-initialisation
     ports(F, R)
